@@ -26,6 +26,8 @@ elseif mode == "lt" then cmp = function(a, b) calls = calls + 1 return a < b end
 elseif mode == "gt" then cmp = function(a, b) calls = calls + 1 return a > b end
 elseif mode == "key" then cmp = function(a, b) calls = calls + 1 return a.k < b.k end
 elseif mode == "truthy" then cmp = function(a, b) calls = calls + 1 if a < b then return 0 end return nil end
+elseif mode == "novalue" then cmp = function(a, b) calls = calls + 1 if a < b then return true end end
+elseif mode == "novalue-gt" then cmp = function(a, b) calls = calls + 1 if a > b then return 1, 2, 3 end return end
 elseif mode == "false" then cmp = function(a, b) calls = calls + 1 return false end
 elseif mode == "true" then cmp = function(a, b) calls = calls + 1 return true end
 elseif mode == "le" then cmp = function(a, b) calls = calls + 1 return a <= b end
@@ -74,16 +76,16 @@ func sortBudget(n int) uint64 {
 
 // comparator classes
 var (
-	consistentModes   = map[string]bool{"default": true, "lt": true, "gt": true, "key": true, "truthy": true, "false": true}
+	consistentModes   = map[string]bool{"default": true, "lt": true, "gt": true, "key": true, "truthy": true, "false": true, "novalue": true, "novalue-gt": true}
 	inconsistentModes = map[string]bool{"true": true, "le": true, "rand": true}
 )
 
 // modelLess is the order the comparator mode defines (consistent modes only).
 func modelLess(mode string, keyOf func(sm.V) sm.V) func(a, b sm.V) bool {
 	switch mode {
-	case "default", "lt", "truthy":
+	case "default", "lt", "truthy", "novalue":
 		return func(a, b sm.V) bool { l, _ := sm.Less(a, b); return l }
-	case "gt":
+	case "gt", "novalue-gt":
 		return func(a, b sm.V) bool { l, _ := sm.Less(b, a); return l }
 	case "key":
 		return func(a, b sm.V) bool { l, _ := sm.Less(keyOf(a), keyOf(b)); return l }
@@ -433,7 +435,7 @@ func (r *runner) sortStage() {
 	}
 	sizes = append(sizes, maxN, maxN-1, 12, 13, 24, 25, 50, 51, 100) // thresholds of usual hybrid sorts
 	sort.Ints(sizes)
-	modes := []string{"default", "lt", "gt", "key", "truthy", "false", "true", "le", "rand", "err", "errnum", "yield"}
+	modes := []string{"default", "lt", "gt", "key", "truthy", "novalue", "novalue-gt", "false", "true", "le", "rand", "err", "errnum", "yield"}
 	idx := 0
 	for _, n := range sizes {
 		for _, mode := range modes {
